@@ -1061,9 +1061,9 @@ func HandleCopy(deps ServerDeps, conn net.Conn, tag string, parts []string, stat
 	// Get the next UID for destination mailbox
 	var nextUID int64
 	err = tx.QueryRow(`
-		SELECT COALESCE(MAX(uid), 0) + 1
-		FROM message_mailbox
-		WHERE mailbox_id = ?
+		SELECT uid_next
+		FROM mailboxes
+		WHERE id = ?
 	`, destMailboxID).Scan(&nextUID)
 
 	if err != nil {
@@ -1114,6 +1114,13 @@ func HandleCopy(deps ServerDeps, conn net.Conn, tag string, parts []string, stat
 		nextUID++
 	}
 
+	// Record the UIDs handed out so that the next message added to the destination continues after them
+	_, err = tx.Exec(`UPDATE mailboxes SET uid_next = ? WHERE id = ?`, nextUID, destMailboxID)
+	if err != nil {
+		deps.SendResponse(conn, fmt.Sprintf("%s NO COPY failed: %v", tag, err))
+		return
+	}
+
 	// Commit transaction
 	err = tx.Commit()
 	if err != nil {
@@ -1153,9 +1160,9 @@ func MoveMessageToMailbox(userDB *sql.DB, messageID int64, sourceMailboxID int64
 	// Get the next UID for destination mailbox
 	var nextUID int64
 	err = tx.QueryRow(`
-		SELECT COALESCE(MAX(uid), 0) + 1
-		FROM message_mailbox
-		WHERE mailbox_id = ?
+		SELECT uid_next
+		FROM mailboxes
+		WHERE id = ?
 	`, destMailboxID).Scan(&nextUID)
 
 	if err != nil {
@@ -1180,6 +1187,12 @@ func MoveMessageToMailbox(userDB *sql.DB, messageID int64, sourceMailboxID int64
 
 	if err != nil {
 		return fmt.Errorf("failed to delete from source: %w", err)
+	}
+
+	// Record the UID handed out so that the next message added to the destination continues after it
+	_, err = tx.Exec(`UPDATE mailboxes SET uid_next = ? WHERE id = ?`, nextUID+1, destMailboxID)
+	if err != nil {
+		return fmt.Errorf("failed to advance next UID: %w", err)
 	}
 
 	// Commit transaction
